@@ -17,7 +17,7 @@ C = dict(
     nontrivial=lambda t: any(KINDS_WITH_REQUEST(e) for e in t["events"]),
     rule="plans = every message class of WriterReq.tla (22 op/event kinds x live/dropped parent x every live/dropped member "
          "list up to length 3 x failing downstream x create-collection schema class x replicate id, plus 4 malformed pack "
-         "shapes), each replayed with 3 (quick) / 40 (thorough) rapid-drawn contents; a trace is non-trivial if at least one "
+         "shapes), each replayed with 3 (quick) / 150 (thorough) rapid-drawn contents; a trace is non-trivial if at least one "
          "downstream request was observed; distinct = distinct event sequences",
     assumptions=[
         "observation point is the api.DataHandler interface (recording fake, deep copies); the real MilvusDataHandler / gRPC "
